@@ -34,14 +34,14 @@ CHECKS = {
          "Decides the structural conditions that make a memo hit equal to a re-run (key = (rule, begin); verdict and tokens stored faithfully; tokens copied; replay splices/advances/sets position in order; furthest-error token only moves strictly forward so replays cannot change it; memoisation can be switched off; table re-made by reset). With deterministic rules these are sufficient; the wrapper half is decided by E2.",
          "DESIGN.md §4 C06",
          "Trusts go/ssa and the template instantiator; assumes no side-effecting predicates (excluded by the property)."),
- "C11": ("go/ssa rules on parse/add/memoizedResult/translatePositions/Error of every template instantiation and peg.peg.go: dominance of return-nil by the entry rule's success, dominance of maxToken stores by the strict-further and non-empty tests, cursor invariant of translatePositions decided with a ==/!= union-find over dominating branch facts, no-string-indexing rule",
-         "Decides verdict mapping, the furthest-first-token rule, that both offsets of the error are translated (cursor invariant) and that quoted text slices runes. Partial: the line/column arithmetic itself is value-level and not decided.",
+ "C11": ("go/ssa rules on parse/add/memoizedResult/translatePositions/Error of every template instantiation and peg.peg.go (dominance of return-nil by the entry rule's success, dominance of maxToken stores by the strict-further and non-empty tests, cursor invariant of translatePositions decided with a ==/!= union-find over dominating branch facts, whole-buffer argument rule, no-string-indexing rule) plus abstract evaluation (E5) of the instantiated source of translatePositions and parseError.Error by the Go-subset interpreter on every short text over {newline, other, multi-byte, quote} and every token begin ≤ end ≤ len",
+         "Decides verdict mapping, the furthest-first-token rule, that both offsets of the error are translated, and — for every text up to the evaluated length, hence by order-invariance of the code (runes are only compared with newline, offsets with each other) for the patterns they represent — that the message carries the definitional 1-based line/column of both ends, quotes exactly the runes between them and is produced without a panic, empty input and end-of-input included. Bounded in text length.",
          "DESIGN.md §4 C11",
-         "Trusts go/ssa, the fact engine in pathfacts.go and the template instantiator; assumes C13's in-bounds invariant."),
- "C05": ("go/ssa call-routing and value-shape rules on the printers of every AST-enabled template instantiation and peg.peg.go",
-         "Decides only two necessary conditions: quoted node text is the rune slice [begin:end] (no string is indexed anywhere in the runtime) and every printer prints AST() with the parser's own Buffer naming nodes by their own rule. Also decides AST()'s adoption test over all orderings of the four offsets it compares (nested, equal spans included ⇒ adopted; before ⇒ not). The rest of the nesting algorithm (pointer surgery, sibling order) is explicitly NOT decided.",
+         "Trusts go/ssa, the fact engine in pathfacts.go, the template instantiator and the interpreter; assumes C13's in-bounds invariant."),
+ "C05": ("abstract evaluation (E5) of the instantiated source of tokens.AST and node.Print by the Go-subset interpreter on the post-order token list of every derivation shape up to a node bound; go/ssa call-routing and value-shape rules on the printers of every AST-enabled template instantiation and peg.peg.go",
+         "Decides, for every derivation shape of at most 5 (thorough 6) nodes — empty and non-empty leaves, gaps before/between/after children, equal parent/child spans — that AST() returns exactly the tree of non-empty tokens with children in input order and that the printer emits one line per node in pre-order with its rule's name and exactly the runes it spans (text with 2/3/4-byte runes); AST() only compares offsets, so the shapes stand for all offsets with the same order pattern. Plus: quoted text is a rune slice, every printer prints AST() with the parser's own Buffer, the adoption test over all orderings. Bounded in derivation size (no induction over arbitrarily deep or wide trees).",
          "DESIGN.md §4 C05",
-         "Partial claim; trusts go/ssa and the instantiator; assumes C03 (post-order token list)."),
+         "Trusts go/ssa, the instantiator and the interpreter; assumes C03 (post-order token list)."),
  "C01": ("abstract interpretation of the emitter's source (E1) into operator templates on model trees with opaque children; instantiation of the runtime template (E3); disjunctive typestate dataflow on go/cfg of each emitted rule function compared with an independent PEG oracle (E2)",
          "Decides the inductive PEG contract of every operator template under default options: the set of (verdict, final position, order/position of child attempts) the emitted code can produce equals the oracle's, for every expression node type, 1–3 children, all may-fail/never-fail flavours and two-level compositions; plus soundness of the always-succeeds shortcut and agreement of rule constants with the rule table. By structural induction these per-operator facts are necessary and, for well-formed grammars, sufficient.",
          "DESIGN.md §4 C01",
